@@ -18,7 +18,45 @@ def obligations(tier):
             for ind in (("SMA", dict(period=2)), ("TR", dict())):
                 nn = n if tf is None else n + 2
                 obs.append(Ob(f"{host}/{ind[0]}/tf={tf}/n={nn}", dict(tf=tf, host=host, ind=list(ind), n=nn), CFG, weight=nn, budget_s=900))
+    # Heikin-Ashi under a candle lifespan: the retained candles are the tail of the same recurrence, however the
+    # stream was fed (also when a whole window expires within one call)
+    for host in ("indicator", "hexital"):
+        nn = 6 if tier == "quick" else 7
+        obs.append(Ob(f"{host}/SMA/lifespan=2min/n={nn}", dict(host=host, ind=["SMA", dict(period=2)], n=nn, tf=None, lifespan=120), CFG, fn="run_lifespan", weight=nn, budget_s=900))
     return obs
+
+
+def run_lifespan(ctx, P):
+    from datetime import timedelta
+    n = P["n"]
+    name, kw = P["ind"]
+    _, _, Candle, _, Hexital = lib()
+    cs = mk_candles(ctx, n, zero_ok=True)
+    raw = [dict(ts=ctx.sec_of(c.timestamp), open=c.open, high=c.high, low=c.low, close=c.close, volume=c.volume) for c in cs]
+    ha = ha_reference(ctx, raw)
+    keep = 3       # 1-minute grid, 2-minute lifespan
+    common = dict(candlestick_type="HA", candles_lifespan=timedelta(seconds=P["lifespan"]))
+    for pre, chunks in ((0, [1] * n), (n, []), (0, [n]), (1, [n - 1]), (0, [2, n - 2]), (2, [1] * (n - 2))):
+        lab = f"[preload={pre},chunks={'+'.join(map(str, chunks))}]"
+        src = clone(cs)
+        if P["host"] == "indicator":
+            ind = build(name, kw, candles=src[:pre], **common)
+            ind.calculate()
+            host = ind
+        else:
+            ind = build(name, kw)
+            host = Hexital("h", src[:pre], [ind], **common)
+            host.calculate()
+        pos = pre
+        for c in chunks:
+            part = src[pos:pos + c]
+            host.append(part if c > 1 else part[0])
+            pos += c
+        got = [dict(ts=ctx.sec_of(c.timestamp), open=c.open, high=c.high, low=c.low, close=c.close, volume=c.volume) for c in ind.candles]
+        if pre == 0 and chunks == [1] * n:
+            ctx.observe("ha", got)
+        if ctx.require("retained-count" + lab, len(got) == keep, f"{len(got)} candles retained"):
+            ctx.equal("retained HA candles == tail of the recurrence" + lab, got, ha[-keep:])
 
 
 def ha_reference(ctx, raw):
@@ -88,7 +126,7 @@ def run(ctx, P):
 
 
 META = dict(
-    bounds=dict(quick="n=4 candles (6 under T2), SMA(2) and TR on HA candles, standalone and inside a Hexital; schedules: from empty one-by-one, 1 or 2 preloaded + singles, all at construction, one chunk, every two-chunk split",
+    bounds=dict(quick="n=4 candles (6 under T2), SMA(2) and TR on HA candles, standalone and inside a Hexital; schedules: from empty one-by-one, 1 or 2 preloaded + singles, all at construction, one chunk, every two-chunk split; plus Heikin-Ashi under a 2-minute lifespan (6 candles, six schedules incl. all at construction and one long chunk)",
                 thorough="n=5 (7 under T2)"),
     stubs=["exact real arithmetic, uninterpreted rounding", "max/min -> If-terms"],
     assumptions=["1-minute concrete grid; collapsed raw candles taken from the reference resampler (C03)"],
